@@ -224,6 +224,8 @@ PORTS = {
     "po2": dict(kind="opt", store="i32", map={b"low": -1, b"mid": 2, b"high": 5}, lo=-1, hi=5),
     "po3": dict(kind="opt", store="u8", map={b"a": 0, b"b": 1, b"c": 2, b"d": 3, b"e": 4}, lo=0, hi=4),
     "po4": dict(kind="opt", store="i32", map={b"sine": 0, b"saw": 1, b"square": 2}, lo=0, hi=3),
+    # symbols that are proper prefixes of EARLIER ones (and of each other): enum_key must compare whole symbols
+    "po5": dict(kind="opt", store="i32", map={b"sine": 0, b"sawtooth": 1, b"saw": 2, b"square": 3, b"sq": 4, b"s": 5}, lo=0, hi=5),
     "pt": dict(kind="tog"),
     "str8": dict(kind="str", cap=8),
     "str1": dict(kind="str", cap=1),
